@@ -423,9 +423,11 @@ def on_yield(I, ynode, v, st):
         raise EngineLimit('yield outside a generator contract')
     st.ghost = dict(st.ghost)
     st.ghost['__yielded__'] = ys + [v] if isinstance(ys, list) else ys
+    st.ghost['__ycount__'] = st.ghost.get('__ycount__', 0) + 1
     c = REGISTRY.get(I.cur_func_qual)
     if c is not None and getattr(c, 'yield_ensures', None):
         env = {k: x for k, x in st.env.items() if not k.startswith('__')}
+        env.update(st.ghost.get('__loop_ghosts__') or {})      # head-of-iteration snapshots of the enclosing cut loop
         env['yielded_value'] = v
         for k, e in enumerate(c.yield_ensures):
             prove_expr(I, e, env, st, c.scope, 'yield', node=ynode, name='%s#yield[%d]' % (I.cur_func, k), note=e)
@@ -550,6 +552,15 @@ def split_unpack(I, node, hs, n, st):
     e = hs.s.expr
     RS = z3.ReSort(z3.StringSort())
     sepz = z3.StrFromCode(hs.sep) if not z3.is_int_value(hs.sep) else z3.StringVal(chr(hs.sep.as_long()))
+    if hs.maxsplit == 1 and n == 2:
+        # (head, tail) = s.split(sep, 1): defined through the first occurrence of the separator
+        idx = z3.IndexOf(e, sepz, 0)
+        for st1, b in I.split(st, z3.Contains(e, sepz)):
+            if not b:
+                yield st1, I.exc('ValueError', node)
+                continue
+            yield st1, [SStr(expr=z3.SubString(e, 0, idx)), SStr(expr=z3.SubString(e, idx + 1, z3.Length(e) - idx - 1))]
+        return
     if not z3.is_int_value(hs.sep):
         raise EngineLimit('symbolic separator on native string')
     nosep = z3.Star(z3.Diff(z3.AllChar(RS), z3.Re(sepz)))
@@ -785,6 +796,27 @@ def ext_src_get_cur_line(I, node, selfref, args, kwargs, st):
 
 
 EXT_METHODS[('ext.Src', 'get_cur_line')] = ext_src_get_cur_line
+
+
+def ext_stream_read(I, node, selfref, args, kwargs, st):
+    """text stream with a ghost field `rest` (everything not yet delivered): read(n) delivers a prefix of it of at most
+    n characters, and the empty string exactly at the end of input (io.TextIOBase.read) - any chunking"""
+    if len(args) != 1 or kwargs:
+        raise EngineLimit('read() without a size')
+    n = I.as_int(args[0])
+    o = st.mut(selfref.addr)
+    rest = o.fields['rest'].z()
+    d = I.fresh('chunk', z3.StringSort())
+    rest2 = I.fresh('rest', z3.StringSort())
+    st.assume(rest == z3.Concat(d, rest2))
+    st.assume(z3.Length(d) <= n)
+    st.assume((z3.Length(d) == 0) == (z3.Length(rest) == 0))
+    o.fields['rest'] = SStr(expr=rest2)
+    I.trusted.add('text stream: read(n) returns a prefix of the undelivered text, at most n characters, empty exactly at end of input')
+    yield st, SStr(expr=d)
+
+
+EXT_METHODS[('ext.Stream', 'read')] = ext_stream_read
 
 
 def ext_textraw_write(I, node, selfref, args, kwargs, st):
